@@ -303,6 +303,21 @@ func genLayoutPairs(rng *gen.Rng, seqLen, seqSample, trees int, emit func(Case))
 		}
 		seq(parts)
 	}
+	// MANY redundant pairs around one operand (a counter of open parentheses that wraps, a recursion limit): the whole
+	// query, the operand of NOT, a field's value, one operand of AND / OR — at depths around 2^7, 2^8, 2^10
+	for _, d := range []int{40, 64, 127, 128, 129, 255, 256, 257, 300, 1000, 1024} {
+		op, cl := strings.Repeat("(", d), strings.Repeat(")", d)
+		for _, pr := range [][2]string{
+			{"a:b AND NOT c", op + "a:b AND NOT c" + cl},
+			{"NOT a:b", "NOT " + op + "a:b" + cl},
+			{"a:b", "a:" + op + "b" + cl},
+			{"a:b OR c:d", op + "a:b" + cl + " OR c:d"},
+			{"a:b AND c:d", "a:b AND " + op + "c:d" + cl},
+			{"f:[1 TO 5]^2", op + "f:[1 TO 5]" + cl + "^2"},
+		} {
+			emit(Case{Gen: "G6-deepparens", Kind: "pair", Rel: "sameifok", S: pr[0], S2: pr[1], Idx: d})
+		}
+	}
 	for i := 0; i < trees; i++ {
 		t := gen.RandomTreeTop(rng, 1+rng.Intn(3))
 		df := ""
@@ -400,6 +415,12 @@ func specC15(c *Case, ps []*Probe) []string {
 		if parts[0] == "override-inplace" && len(ps) >= 4 && (r != ps[3].Impl["R"] || rp != ps[3].Impl["RP"]) {
 			out = append(out, "overriding one operator's function in the driver's own table renders differently from the same override in a copy of the table (the change is not local to that operator's nodes)")
 		}
+	case "instance-delete":
+		// the function of one operator deleted from the table of the driver one holds, rendered through that driver: must
+		// equal the same deletion made in a COPY of the table (rendered through a plain Base)
+		if len(ps) >= 3 && (r != ps[2].Impl["R"] || rp != ps[2].Impl["RP"]) {
+			out = append(out, "deleting one operator's function from the driver's own table renders differently from the same deletion in a copy of the table (the driver does not consult its RenderFNs at render time)")
+		}
 	case "pg":
 		if oracle.HasOp(e, expr.Fuzzy) || oracle.HasOp(e, expr.Boost) {
 			if strings.HasPrefix(r, "ok:") {
@@ -430,7 +451,7 @@ func genRenderCases(rng *gen.Rng, count int, emit func(Case)) {
 		case 4:
 			desc = "fail:" + strconv.Itoa(op)
 		case 5:
-			desc = gen.Pick(rng, []string{"override:", "override-inplace:"}) + strconv.Itoa(op)
+			desc = gen.Pick(rng, []string{"override:", "override-inplace:", "override-inplace:", "instance-delete:"}) + strconv.Itoa(op)
 		case 6:
 			desc = "pg"
 		default:
@@ -748,7 +769,10 @@ func escapeWord(w string) string {
 }
 
 var quoteAlphabet = []string{"\ufffd", "\ufffe", "\u0085", "a", "b", "Z", "0", "7", " ", "  ", "\t", "\n", "*", "?", "/", "\\", "'", "''", ":", "=", "(", ")", "[", "]", "{", "}", "+", "-", "~", "^",
-	"AND", "OR", "NOT", "TO", "and", "<", ">", ",", ";", "--", "/*", "*/", "$$", "%", "_", "|", ".", "é", "日本", "😀", "ſ", "\u00a0", "%!s(x)", "E'", "5", "-5", "1.5", "NaN", "null"}
+	"AND", "OR", "NOT", "TO", "and", "<", ">", ",", ";", "--", "/*", "*/", "$$", "%", "_", "|", ".", "é", "日本", "😀", "ſ", "\u00a0", "%!s(x)", "E'", "5", "-5", "1.5", "NaN", "null",
+	// quotation marks that are not the ASCII ones, currency signs; letters and digits that would complete an escape SEQUENCE of another
+	// language after a backslash (\u0041, \x41, \n, \101): here a backslash escapes one character and the rest is ordinary text
+	"“", "”", "‘", "’", "«", "»", "„", "＂", "＇", "`", "´", "€", "£", "¥", "$", "@", "#", "u0041", "u00e9", "U0001F600", "x41", "n", "t", "r", "101", "u"}
 
 // genQuoted (C08): texts w without a double quote, written between double quotes as a field's value, as a bare
 // query with a default field, and (escaping clause) as a bare word with a backslash before each special character.
@@ -922,7 +946,9 @@ func specC11(c *Case, ps []*Probe) []string {
 	return specFromProbes("")(c, ps)
 }
 
-var dfNames = []string{"df", "d f", "x'y", "dflt_1", "Ünï", " df", "df ", "\tdf\n", " ", "\t", "\"my col\"", "\"a\"", "'q'", "\"", "\"\""}
+var dfNames = []string{"df", "d f", "x'y", "dflt_1", "Ünï", " df", "df ", "\tdf\n", " ", "\t", "\"my col\"", "\"a\"", "'q'", "\"", "\"\"",
+	// names containing what some code might take for a separator or an operator (a name is ONE column, verbatim)
+	"a,b", "last, first", "tags[0,1]", "a;b", "a|b", "a.b", "a:b", "a/b", "a+b", "a-b", "a AND b", "a OR b", "a*", "a?b", "(a)", "a=b", "a~2", "a^2", "a\\b"}
 
 var embedContexts = []string{"f:(%s)", "f:>(%s)", "f:<=(%s)", "f=(%s)", "f:[(%s) TO 5]", "f:[1 TO (%s)]", "(%s):x", "(%s):x*", "f:((%s):c*)", "f:((%s):(c OR d))",
 	"f:((%s):[1 TO 5])", "NOT (%s)", "x AND f:(%s)", "f:(%s)^2", "f:(%s)~", "+(%s)", "f:(x:y AND %s)", "f:(a:[(%s) TO d])", "g:(f:(%s))"}
@@ -1171,6 +1197,17 @@ func init() {
 		}
 		genEmbedded(rng, tiered(cfg, 40000, 1000000), []string{"", "", "df"}, der)
 		genOffPath(rng, tiered(cfg, 30000, 600000), []string{"", "", "df"}, der)
+		// a default field that ALSO occurs as an explicitly typed field of the query (code that recognises "its own"
+		// default-field wrapping by the column name cannot tell the two apart)
+		for i := 0; i < tiered(cfg, 30000, 500000); i++ {
+			t := gen.RandomTreeTop(rng, 1+rng.Intn(4))
+			der(Case{Gen: "G2-df-collides", Kind: "q", S: gen.Spell(rng, t.Print(), rng.Intn(3)), DF: gen.Pick(rng, []string{"a", "f", "n_1", "my col"}), Idx: i})
+		}
+		for i := 0; i < tiered(cfg, 3000, 50000); i++ {
+			f := gen.Pick(rng, []string{"a", "f", "title"})
+			q := gen.Pick(rng, []string{"x:(%s:b OR c)", "x:(%s:b)", "x:(c AND %s:b)", "x:(NOT %s:b)", "%s:(%s:b OR c)", "x:(%s:b c)", "x:((%s:b OR c) OR d)", "%s:b AND c", "c OR %s:b", "x:(y:(%s:b OR c))"})
+			der(Case{Gen: "G2-df-collides", Kind: "q", S: strings.ReplaceAll(q, "%s", f), DF: f, Idx: i})
+		}
 	}})
 	add(&Property{ID: "C07", Fields: fields("P"), Spec: specPair, Generate: func(cfg RunConfig, emit func(Case)) {
 		rng := gen.NewRng(cfg.Seed, 7)
